@@ -1,6 +1,6 @@
 (* Correspondence interface used by harness/cmd/mkvsproof: case types, the
    model runner and the comparison function.  Definitions only. *)
-From Verif Require Import Lib.Base Mkvs.Trie MkvsProof.Model.
+From Verif Require Import Lib.Base Mkvs.Trie MkvsProof.Model MkvsProof.Remote MkvsProof.Iter.
 
 (* the hash function as a finite table (pre-image -> SHA-512/256 digest)
    computed by the harness with the real hash; a miss yields [] which can never
@@ -11,6 +11,9 @@ Definition tab_H (tab : list (bytes * bytes)) (x : bytes) : bytes :=
 Inductive c04_in :=
 (* the proof SyncGet builds: tree given by the inserted pairs *)
 | CBuild (tab : list (bytes * bytes)) (kvs : list (bytes * bytes)) (ver : N) (sib : bool) (k : bytes)
+(* the proofs SyncIterate / SyncGetPrefixes build *)
+| CIter (tab : list (bytes * bytes)) (kvs : list (bytes * bytes)) (ver : N) (k : bytes) (prefetch : nat)
+| CPrefixes (tab : list (bytes * bytes)) (kvs : list (bytes * bytes)) (ver : N) (prefixes : list bytes) (limit : nat)
 (* a group of (version, untrusted root, entries) candidates checked against
    one trusted root; [keys] are then looked up through each accepted one *)
 | CVerify (tab : list (bytes * bytes)) (root : bytes) (keys : list bytes)
@@ -44,6 +47,14 @@ Definition run_c04 (i : c04_in) : c04_out :=
       let H := tab_H tab in
       let t := fold_left (fun t kv => tinsert (fst kv) (snd kv) t) kvs Nil in
       OBuild (root_hash H t) (build_get_proof H ver sib k t)
+  | CIter tab kvs ver k prefetch =>
+      let H := tab_H tab in
+      let t := fold_left (fun t kv => tinsert (fst kv) (snd kv) t) kvs Nil in
+      OBuild (root_hash H t) (build_iter_proof H ver t k prefetch)
+  | CPrefixes tab kvs ver prefixes limit =>
+      let H := tab_H tab in
+      let t := fold_left (fun t kv => tinsert (fst kv) (snd kv) t) kvs Nil in
+      OBuild (root_hash H t) (build_prefixes_proof H ver t prefixes limit)
   | CVerify tab root keys ms =>
       OVerify (map (run_one (tab_H tab) root keys) ms)
   end.
